@@ -38,3 +38,53 @@ def str_consts_compared(f):
             if o[0] == 'const' and 'str' in o[1]:
                 out.append((o[1]['str'], s))
     return out
+
+
+def log_writer_calls(P):
+    """EventLog::append: every call that is handed the guarded log writer (whatever its name:
+    write_all / write / write_fmt / serde_json::to_writer / io::copy), flush excluded.
+    returns (append fn, all such calls, those from which the Ok return is reachable)."""
+    import re as _re
+    from ..core import CheckError
+    app = P.fn('rip_log::EventLog::append')
+    guards = [s.dest['l'] for s in app.calls(r'Mutex::<T>::lock$')]
+    guards += [s.dest['l'] for s in app.calls(r'Result::<T, E>::(expect|unwrap)$|unwrap_or_else$') if 'MutexGuard' in app.lty(s.dest['l'])]
+    if not guards:
+        raise CheckError('EventLog::append does not lock a writer (anchor missing)')
+    DER = (r'::deref$', r'::deref_mut$', r'::as_mut$', r'::by_ref$', r'::get_mut$')
+    writes = []
+    for s_ in app.sites():
+        if _re.search(r'::(deref|deref_mut|as_mut|by_ref|get_mut|flush|drop|lock|expect|unwrap|unwrap_or_else)$', s_.callee) or s_.name == 'drop':
+            continue
+        if any(app.root_local(a, through_calls=DER) in guards for a in s_.args):
+            writes.append(s_)
+    okret = [bi for (bi, si, st) in app.aggregates(r'^core::result::Result$', 'Ok')]
+    on_ok = [w for w in writes if any(r in app.reach(w.bb) for r in okret)]
+    return app, writes, on_ok
+
+
+CHAR_BOUNDARY_OPS = (r'^alloc::string::String::(truncate|split_off|insert|insert_str|remove|drain|replace_range)$'
+                     r'|^core::str::<impl str>::split_at(_mut)?$'
+                     r'|impl core::ops::index::Index(Mut)?<I> for str>::index(_mut)?$'
+                     r'|^<alloc::string::String as core::ops::index::Index(Mut)?<I>>::index(_mut)?$')
+CHAR_BOUNDARY_GUARDS = r'::is_char_boundary$|::char_indices$|::floor_char_boundary$|::ceil_char_boundary$|::find$|::rfind$|::len_utf8$|::match_indices$|::split_at_checked$'
+
+
+def char_boundary_ops(P, fns):
+    """byte-offset string operations that PANIC when the offset is not on a UTF-8 character
+    boundary (String::truncate / split_off / insert / remove / drain / replace_range, str::split_at,
+    str / String range indexing). returns [(fn, site, guarded)] — guarded when the same function
+    derives or tests offsets with is_char_boundary / char_indices / find / len_utf8 (the repo's idioms)."""
+    import re as _re
+    out = []
+    for f in fns:
+        g = None
+        for s_ in f.sites():
+            if _re.search(CHAR_BOUNDARY_OPS, s_.callee):
+                # a full-range index str[..] cannot panic
+                if 'RangeFull' in s_.full:
+                    continue
+                if g is None:
+                    g = bool(f.calls(CHAR_BOUNDARY_GUARDS))
+                out.append((f, s_, g))
+    return out
